@@ -154,12 +154,28 @@ def hist_case(r, spec, pool):
                 f.decode(b)
                 return f
             d, _, x = L.res(dec_used, L.obj_term, "obj")
-            f, _, xf = L.res(dec_new, L.obj_term, "obj")
+            fresh_box = []
+
+            def dec_new_keep(b=b):
+                fresh_box.append(dec_new(b))
+                return fresh_box[0]
+            f, _, xf = L.res(dec_new_keep, L.obj_term, "obj")
+            # what the brand-new instance encodes to after that decode: the used instance must encode to the same
+            if fresh_box:
+                fe, _, xe = L.res(fresh_box[0].encode, L.nbytes, "bytes")
+            elif xf is not None and not isinstance(xf, L.UnexpectedObs):
+                fe, xe = "(Seen (@Raise (bytes) %s))" % L.pyexn(xf), None
+            else:
+                fe, xe = None, None
+            if fe is None or isinstance(xe, L.UnexpectedObs):
+                outs.append("HOUnexpected %s" % L.what("encode of a new instance after decode: %s" % fe))
+                bad = True
+                break
             if isinstance(x, L.UnexpectedObs) or isinstance(xf, L.UnexpectedObs):
                 outs.append("HOUnexpected %s" % L.what(d + " / " + f))
                 bad = True
                 break
-            outs.append("HODec %s %s" % (d[len("(Seen "):-1], f[len("(Seen "):-1]))
+            outs.append("HODec %s %s %s" % (d[len("(Seen "):-1], f[len("(Seen "):-1], fe[len("(Seen "):-1]))
             if x is not None:
                 # the instance after the raising decode (which attributes were already assigned)
                 try:
